@@ -29,7 +29,9 @@ STUB = ['time.sleep / asyncio.sleep as seen by pjrpc.client.retry (virtual clock
         'event loop (SimLoop, virtual time)']
 ASSUMPTIONS = ['all durations are dyadic rationals of small magnitude, so virtual-time arithmetic is exact',
                'jitter callables are constant, so no pairing of jitter calls with delays is assumed',
-               'one caller per run, so nothing else moves the virtual clock between that caller\'s records']
+               'one caller per run in the single / history families, so nothing else moves the virtual clock between that '
+               'caller\'s records; in retry.concurrent.async the callers are tasks of one event loop and every record is '
+               'attributed to its caller (request token / task)']
 
 OUTCOME_EXC = {'exc_conn': SimConnError, 'exc_reset': SimConnReset, 'exc_timeout': SimTimeout,
                'exc_other': SimOther, 'lost_conn': SimConnError, 'abort': SimAbort}
@@ -269,6 +271,120 @@ def _history_family(client_async: bool):
     return fam
 
 
+def fam_concurrent_async(w: World) -> None:
+    """Two or three callers use ONE asynchronous client (one client-wide strategy) at the same time: every caller's
+    request has its own per-attempt outcome script (the transport tells the requests apart by their token), so the
+    retry loops of different requests interleave on the virtual clock.  Each caller is judged on its own records: its
+    number of sends, its sleep arguments, the gaps between its attempts, and the outcome it received."""
+    import asyncio
+    from types import SimpleNamespace
+    from ..stack import Stack
+    ch = w.ch
+    n_callers = 2 + ch.draw(2, 'concurrent.n')
+    strategy = CS.draw_strategy(ch)
+    strategy['backoff']['jitter_seq'] = False      # a sequence shared by interleaved callers would be an open zone
+    if strategy['backoff']['attempts'] == 0:
+        strategy['backoff']['attempts'] = 2
+    n = strategy['backoff']['attempts']
+    strict = not ch.flag(1, 5, 'client.nonstrict')
+    server_async = bool(ch.draw(2, 'server.async'))
+    scns = []
+    for k in range(n_callers):
+        scn = CS.draw_scenario(ch, cancel=False, max_tracers=0)
+        # the client-wide strategy is shared; a caller may still pass a strategy of its own (or None) with its request
+        if scn['placement'] in ('none', 'client'):
+            scn['placement'], scn['request_strategy'] = 'client', 'unset'
+        elif scn['placement'] == 'request':
+            scn['placement'] = 'replaced'
+        if isinstance(scn['request_strategy'], dict):
+            scn['request_strategy']['backoff']['jitter_seq'] = False
+        scn.update(client_strategy=strategy, strict=strict, server_async=server_async, tracers=0)
+        eff = CS.effective_strategy(scn)
+        scn['script'] = (scn['script'] * 4)[:(eff['backoff']['attempts'] if eff else 0) + 2]
+        w.probe('concurrent.placement.' + scn['placement'])
+        scn['start'] = ch.choice([0.0, 0.0, 0.25, 1.0, 0.5], 'concurrent.start')
+        normalise_script(scn)
+        scns.append(scn)
+    w.scenario = {'client_async': True, 'concurrent': True, 'callers': scns}
+    w.nontrivial = True
+    st = Stack(w, True, server_async, None,
+               client_kwargs={'strict': strict, 'tracers': [], 'retry_strategy': CS.build_strategy(strategy)})
+    st.service.add_flaky(st.net.name)
+    st.dispatcher.add_methods(st.service.registry(['flaky']))
+    obss: List[CS.Obs] = []
+    ops = []
+    for k, scn in enumerate(scns):
+        toks = [f'q{k}e{j}' for j in range(scn['n_elems'])]
+        st.net.keyed_scripts[toks[0]] = CS._net_script(scn)
+        w.plan[('flaky', toks[0])] = CS._flaky_plan(scn)
+        for t in toks[1:]:
+            w.plan[('flaky', t)] = ['ok'] * len(scn['script'])
+        obs = CS.Obs()
+        obs.stack, obs.tok = st, toks[0]
+        obss.append(obs)
+        ops.append(CS.make_op(st, scn, toks, obs))
+    for reset in CS._JITTER_RESETS:
+        reset()
+
+    async def one(k: int) -> None:
+        scn, obs = scns[k], obss[k]
+        asyncio.current_task().pjsim_caller = k     # type: ignore[union-attr]
+        await asyncio.sleep(scn['start'])
+        w.rec('client', 'caller.invoke', req_kind=scn['kind'], via=scn['via'], caller=k)
+        try:
+            if scn['in_except']:
+                try:
+                    raise CS.CallerTrouble('the caller is handling this while it makes the call')
+                except CS.CallerTrouble:
+                    value = await ops[k]()
+            else:
+                value = await ops[k]()
+            obs.outcome = ('value', value)
+            w.rec('client', 'caller.return', outcome='value', caller=k)
+        except BaseException as e:  # noqa: BLE001
+            if isinstance(e, (KeyboardInterrupt, SystemExit, asyncio.CancelledError)):
+                raise
+            obs.outcome = ('raise', e)
+            w.rec('client', 'caller.return', outcome='raise', exc=type(e).__name__, oid=w.ordinal(e), caller=k)
+
+    async def main() -> None:
+        await asyncio.gather(*(one(k) for k in range(n_callers)))
+
+    assert st.loop is not None
+    st.loop.run_until_complete(main())
+    # did the retry loops of two callers actually overlap?
+    spans = []
+    for k in range(n_callers):
+        mine = [r['seq'] for r in w.history if r.get('caller') == k]
+        if len(mine) == 2:
+            spans.append((mine[0], mine[1]))
+    if any(a[0] < b[0] < a[1] or b[0] < a[0] < b[1] for i, a in enumerate(spans) for b in spans[i + 1:]):
+        w.probe('callers_overlapped')
+    summary = []
+    for k, (scn, obs) in enumerate(zip(scns, obss)):
+        if not obs.outcome:
+            w.violate('C09.outcome', f'caller {k} never returned', caller=k)
+            return
+        tok = obs.tok
+        obs.records = [r for r in w.history
+                       if (r['kind'].startswith('wire.') and r.get('key') == tok)
+                       or (r['kind'] == 'sleep' and r.get('task') == k)
+                       or (r['kind'].startswith('caller.') and r.get('caller') == k)]
+        foreign_sleeps = [r for r in w.history if r['kind'] == 'sleep' and r.get('task') is None]
+        if foreign_sleeps:
+            w.violate('C09.pause', f'{len(foreign_sleeps)} sleeps happened outside any caller\'s task', caller=k)
+            return
+        obs.net = SimpleNamespace(raised=st.net.raised_keyed.get(tok, []))
+        before = len(w.violations)
+        summary.append(judge(w, scn, obs, True))
+        if len(w.violations) > before:
+            for v in w.violations[before:]:
+                v.ctx['caller'] = k
+                v.ctx['concurrent'] = True
+            return
+    w.sig_parts = summary
+
+
 SWEEP_SINGLE = ['ok', 'err_listed', 'err_unlisted', 'exc_conn', 'exc_reset', 'exc_other', 'lost_conn']
 SWEEP_BATCH = ['ok', 'batch_err_listed', 'batch_err_unlisted', 'exc_conn', 'exc_reset', 'exc_other', 'err_listed']
 SWEEP_NOTIFY = ['ok', 'exc_conn', 'exc_reset', 'exc_other']
@@ -286,7 +402,8 @@ def systematic(tier: str):
 
 
 FAMILIES = {'retry.sync': _family(False), 'retry.async': _family(True),
-            'retry.history.sync': _history_family(False), 'retry.history.async': _history_family(True)}
+            'retry.history.sync': _history_family(False), 'retry.history.async': _history_family(True),
+            'retry.concurrent.async': fam_concurrent_async}
 SYSTEMATIC = {'retry.sync': systematic, 'retry.async': systematic}
 RULE = ('systematic part: every per-attempt outcome sequence of length n+2 over {success, listed code, unlisted code, '
         'batch-level listed / unlisted error, listed exception, subclass of a listed exception, unlisted exception, lost '
@@ -295,7 +412,9 @@ RULE = ('systematic part: every per-attempt outcome sequence of length n+2 over 
         'seeded scenarios incl. per-request / disabled / replaced strategies; distinct = distinct history digest; '
         'non-trivial = at least one fault fired')
 PLAN = {
-    'quick': {'retry.sync': 60000, 'retry.async': 60000, 'retry.history.sync': 15000, 'retry.history.async': 15000},
-    'thorough': {'retry.sync': 40000, 'retry.async': 40000, 'retry.history.sync': 40000, 'retry.history.async': 40000},
+    'quick': {'retry.sync': 60000, 'retry.async': 60000, 'retry.history.sync': 15000, 'retry.history.async': 15000,
+              'retry.concurrent.async': 20000},
+    'thorough': {'retry.sync': 40000, 'retry.async': 40000, 'retry.history.sync': 40000, 'retry.history.async': 40000,
+                 'retry.concurrent.async': 40000},
 }
 THOROUGH_BUDGET_S = 600
